@@ -9,16 +9,16 @@ import (
 // WNode is one field occurrence of an encoded message, parsed with the help
 // of the schema (so that embedded messages are distinguished from strings).
 type WNode struct {
-	Num  int
-	Typ  protowire.Type
-	TagW int      // width in bytes of the tag varint (0 = minimal)
-	ValW int      // width of the value varint (varint fields) or of the length prefix (bytes fields); 0 = minimal
-	U    uint64   // varint, fixed32 or fixed64 payload
-	Raw  []byte   // payload of a non-message bytes field
-	Sub  []WNode  // payload of an embedded message (IsMsg)
+	Num   int
+	Typ   protowire.Type
+	TagW  int     // width in bytes of the tag varint (0 = minimal)
+	ValW  int     // width of the value varint (varint fields) or of the length prefix (bytes fields); 0 = minimal
+	U     uint64  // varint, fixed32 or fixed64 payload
+	Raw   []byte  // payload of a non-message bytes field
+	Sub   []WNode // payload of an embedded message (IsMsg)
 	IsMsg bool
-	F    *Field   // schema field (nil: unknown field)
-	M    *Message // schema of Sub (IsMsg)
+	F     *Field   // schema field (nil: unknown field)
+	M     *Message // schema of Sub (IsMsg)
 }
 
 // WireTypeOf is the wire type a field (or map key/value slot) of kind k uses.
